@@ -257,6 +257,60 @@ void settle()
         % std::setprecision(6) % std::setfill(' ') % std::setw(0);
 }
 
+// ---- the whole chain as ONE expression ----
+// f.args(a) % b ... : every call is applied to what the previous call RETURNED (the header declares self& for
+// operator%, args(x, ...) and args()), recursively, so that whatever a call returns stays alive until the end of
+// the chain exactly as in a single expression statement.  out.same: every intermediate result is the object the
+// chain started on (only checked when `named` is given); out.value: str() of the value of the whole chain.
+struct ChainOut
+{
+    std::string value;
+    bool same = true;
+    bool bad = false;
+};
+template <std::size_t... I, typename Fm, typename K>
+void args_str_k(Fm&& f, const std::vector<Val>& v, K& k, std::index_sequence<I...>) { k(std::forward<Fm>(f).args(v[I].s...)); }
+template <std::size_t... I, typename Fm, typename K>
+void args_var_k(Fm&& f, const std::vector<Val>& v, K& k, std::index_sequence<I...>) { k(std::forward<Fm>(f).args(*v[I].var...)); }
+template <std::size_t... I, typename Fm, typename K>
+void args_tmp_k(Fm&& f, const std::vector<Val>& v, K& k, std::index_sequence<I...>) { k(std::forward<Fm>(f).args(std::string(v[I].s)...)); }
+template <std::size_t... I, typename Fm, typename K>
+void args_val_k(Fm&& f, const std::vector<Val>& v, K& k, std::index_sequence<I...>) { k(std::forward<Fm>(f).args(v[I]...)); }
+template <std::size_t N, typename Fm, typename K>
+bool dispatch_args_k(Fm&& f, const std::vector<Val>& v, K& k)
+{
+    if (v.size() == N)
+    {
+        if (all_strings(v)) args_str_k(std::forward<Fm>(f), v, k, std::make_index_sequence<N>{});
+        else if (N > 0 && all_kind(v, 'n')) args_var_k(std::forward<Fm>(f), v, k, std::make_index_sequence<N>{});
+        else if (N > 0 && all_kind(v, 'r')) args_tmp_k(std::forward<Fm>(f), v, k, std::make_index_sequence<N>{});
+        else args_val_k(std::forward<Fm>(f), v, k, std::make_index_sequence<N>{});
+        return true;
+    }
+    if constexpr (N > 0) return dispatch_args_k<N - 1>(std::forward<Fm>(f), v, k);
+    else return false;
+}
+template <typename Fm>
+void chain(Fm&& cur, const std::vector<Op>& ops, std::size_t idx, const F* named, bool cstr, ChainOut& out)
+{
+    if (named && &cur != named) out.same = false;
+    if (idx == ops.size())
+    {
+        out.value = observe([&] { return cur.str(); });
+        return;
+    }
+    const Op& o = ops[idx];
+    auto next = [&](auto&& r) { chain(std::forward<decltype(r)>(r), ops, idx + 1, named, cstr, out); };
+    if (o.kind == 'p')
+    {
+        const Val& v = o.vals[0];
+        if (v.kind == 's' && cstr && no_nul(v.s)) next(std::forward<Fm>(cur) % v.s.c_str());
+        else with_value(v, [&](auto&& x) { next(std::forward<Fm>(cur) % std::forward<decltype(x)>(x)); });
+    }
+    else if (!dispatch_args_k<MAXN>(std::forward<Fm>(cur), o.vals, next))
+        out.bad = true;
+}
+
 // ---- relocation of the formatter OBJECT (rel cases) ----
 std::string short_obs(const F& f)
 {
@@ -403,12 +457,27 @@ static std::string run_case_inner(const std::vector<std::string>& w)
         std::string d = a;
         if (no_nul(fmt))
         {
-            // the const Char* overload of nitro::format, const char* arguments
+            // the const Char* overload of nitro::format, const char* arguments: the chain on a TEMPORARY, observed
+            // through the value of the chain expression
             settle();
-            F g = nitro::format(fmt.c_str());
-            if (!apply_ops(g, ops, true)) return "BADCASE";
-            d = observe([&] { return g.str(); });
+            ChainOut t;
+            chain(nitro::format(fmt.c_str()), ops, 0, nullptr, true, t);
+            if (t.bad) return "BADCASE";
+            d = t.value;
         }
+        // the chain as one expression statement on a NAMED formatter, which is read afterwards through its name;
+        // every call of the chain must have returned that very object
+        std::string e, ev;
+        {
+            settle();
+            F h = nitro::format(fmt);
+            ChainOut n;
+            chain(h, ops, 0, &h, false, n);
+            if (n.bad) return "BADCASE";
+            e = observe([&] { return h.str(); });
+            ev = n.same ? n.value : "NOT-THE-SAME-OBJECT " + n.value;
+        }
+        if (a != e || a != ev) return "CHAIN-DIFFER statements=" + a + " named=" + e + " value=" + ev;
         if (a != b || a != c || a != d) return "ROUTES-DIFFER str=" + a + " conv=" + b + " os=" + c + " cstr=" + d;
         return a;
     }
